@@ -110,7 +110,6 @@ func (x *scriptRun) finishOpen(e int, po *pendingOpen, wait time.Duration) bool 
 func (x *scriptRun) accept(e int) {
 	ctx, cancel := context.WithTimeout(context.Background(), opDeadline)
 	defer cancel()
-	x.r.add(map[string]any{"ev": "Call", "e": e, "op": "accept", "s": 0, "k": 0, "d": []int{}, "t": nowMs()})
 	m := x.p.mux[e]
 	res := watchdog(opWatchdog, func() callResult {
 		s, err := m.AcceptStream(ctx)
@@ -144,7 +143,6 @@ func (x *scriptRun) write(e, s, n int) {
 func (x *scriptRun) read(e, s, k int) string {
 	st := x.streams[e][s]
 	buf := make([]byte, k)
-	x.r.add(map[string]any{"ev": "Call", "e": e, "op": "read", "s": s, "k": k, "d": []int{}, "t": nowMs()})
 	res := watchdog(opWatchdog, func() callResult {
 		st.SetReadDeadline(time.Now().Add(opDeadline))
 		c, err := st.Read(buf)
@@ -213,7 +211,7 @@ func runScript(cid string, in scriptIn) *recorder {
 		in.Bufs = 5
 	}
 	r.add(map[string]any{"ev": "Begin", "begin": true, "mode": "script", "w": in.W, "b": in.B, "in": in})
-	x := &scriptRun{r: r, p: newPair(r.tap(true), true, 0, in.W, in.B, in.Bufs, 0)}
+	x := &scriptRun{r: r, p: newPair(r.tap(true, false), true, 0, in.W, in.B, in.Bufs, 0)}
 	defer x.p.shutdown()
 	for e := 0; e < 2; e++ {
 		x.streams[e] = map[int]*multiplexing.Stream{}
@@ -300,7 +298,7 @@ func runScript(cid string, in scriptIn) *recorder {
 				continue
 			}
 			deadline := time.Now().Add(3 * time.Second)
-			for {
+			for iter := 0; iter < 2000; iter++ {
 				k := x.read(e, s, 8)
 				if k == "" {
 					continue
